@@ -279,6 +279,71 @@ func dependsOnDeep(v, src ssa.Value, depth int) bool {
 	return false
 }
 
+// scannerBytesRetained: bufio.Scanner.Bytes() returns a slice into the scanner's
+// buffer that the next Scan() overwrites. Reports every place in the packages
+// with the given path prefix where such a slice (or a re-slice of it) is kept
+// beyond the iteration: appended to a slice, stored into memory other than a
+// plain local, put into a map, sent, captured or returned. Handing it to a call
+// is accepted (parsers copy what they keep).
+func scannerBytesRetained(c *Ctx, pkgPrefix string) []string {
+	var out []string
+	for fn := range c.Prog.AllFuncs() {
+		if fn.Blocks == nil || !strings.Contains(rawFuncName(fn), pkgPrefix) {
+			continue
+		}
+		s := NewSymer()
+		for _, b := range fn.Blocks {
+			for _, in := range b.Instrs {
+				call, ok := in.(*ssa.Call)
+				if !ok || calleeName(call.Common()) != "(*bufio.Scanner).Bytes" {
+					continue
+				}
+				seen := map[ssa.Value]bool{}
+				var walk func(v ssa.Value)
+				walk = func(v ssa.Value) {
+					if seen[v] || v.Referrers() == nil {
+						return
+					}
+					seen[v] = true
+					for _, r := range *v.Referrers() {
+						switch x := r.(type) {
+						case *ssa.Slice:
+							walk(x)
+						case *ssa.Phi:
+							walk(x)
+						case *ssa.Store:
+							if x.Val != v {
+								continue
+							}
+							if al, isAl := x.Addr.(*ssa.Alloc); isAl && !al.Heap {
+								// a plain local: follow its loads
+								for _, rr := range *al.Referrers() {
+									if ld, isLd := rr.(*ssa.UnOp); isLd {
+										walk(ld)
+									}
+								}
+								continue
+							}
+							out = append(out, fmt.Sprintf("%s: Scanner.Bytes() stored to %s at %s", FuncName(fn), s.Sym(x.Addr), c.Prog.Pos(x.Pos())))
+						case *ssa.MapUpdate:
+							out = append(out, fmt.Sprintf("%s: Scanner.Bytes() put into a map at %s", FuncName(fn), c.Prog.Pos(x.Pos())))
+						case *ssa.Send:
+							out = append(out, fmt.Sprintf("%s: Scanner.Bytes() sent on a channel at %s", FuncName(fn), c.Prog.Pos(x.Pos())))
+						case *ssa.Return:
+							out = append(out, fmt.Sprintf("%s: Scanner.Bytes() returned at %s", FuncName(fn), c.Prog.Pos(x.Pos())))
+						case *ssa.MakeClosure:
+							out = append(out, fmt.Sprintf("%s: Scanner.Bytes() captured by a closure at %s", FuncName(fn), c.Prog.Pos(x.Pos())))
+						}
+					}
+				}
+				walk(call)
+			}
+		}
+	}
+	sort.Strings(out)
+	return out
+}
+
 // receiverWrites lists the stores into fields of the receiver made by fn and the
 // methods it calls on the same receiver ("recv.<field>" addresses, also through
 // sub-fields and elements).
